@@ -54,6 +54,21 @@ def generate(rng, n, tier):
         c["pre"], c["post"] = ops, tail
         del c["ops"]
         c["action"] = rng.choice(["deepcopy", "saveload", "dill", "savefreq"])
+        if rng.random() < 0.3:
+            # independence: a SECOND copy is given another objective and stepped alternately with the original while the original runs its tail;
+            # whatever that copy does must not show in the original (compared with the first copy, which runs the same tail alone afterwards)
+            c["diverge"] = dict(cost=G.gen_cost(rng, c["ndim"]), how=rng.choice(["deepcopy", "deepcopy", "dill"]))
+            if rng.random() < 0.6:
+                for o in c["pre"]:
+                    if o["op"] == "SetTermination":
+                        o["term"] = dict(kind="or_collapse", a=dict(kind="never"), tol=rng.choice([1e-9, 1e-12]), g=rng.choice([2, 3]))
+                # a smooth cost (the original keeps moving) and a tail of plain Steps, long enough for the copy's collapse to be detected
+                for o in c["pre"]:
+                    if o["op"] == "SetObjective" and o["cost"]["kind"] != "vector":
+                        o["cost"] = dict(kind="quad", a=[G.grid(rng, -2, 2) + 0.125 for _ in range(c["ndim"])])
+                c["pre"] = [o for o in c["pre"] if o["op"] not in ("Step", "Solve", "SetLimits", "Finalize")] + \
+                           [dict(op="Step", cb=False) for _ in range(rng.randint(2, 4))]
+                c["post"] = [dict(op="Step", cb=False) for _ in range(rng.randint(5, 8))]
         if rng.random() < 0.2:
             # one long Solve (DE settings given as keywords) with periodic dumps; resume from the last dump and catch up
             cfg = [o for o in ops if o["op"] not in ("Step", "Solve", "SetLimits", "Finalize")]
@@ -120,7 +135,8 @@ def _run(case):
             else:
                 # the periodic dump is the state at the end of the last EXECUTED iteration: comparable with the original
                 # only if the last operation of the prefix executed one and did not stop (a stop finalizes the original)
-                last_ok = len(pre_trace) >= 2 and pre_trace[-1]["nstep"] > pre_trace[-2]["nstep"] and pre_trace[-1]["msg"] == "none"
+                # (when it did stop, the dump forced at the stop is the finalized solver: comparable too)
+                last_ok = len(pre_trace) >= 2 and pre_trace[-1]["nstep"] > pre_trace[-2]["nstep"]
                 s1 = LoadSolver(fname) if (os.path.exists(fname) and last_ok) else None
             saved_gens = None
             if s1 is not None and a == "savefreq" and int(s1.generations) != at["gens"]:
@@ -130,12 +146,33 @@ def _run(case):
                 L.retag(s1, tag1)
                 saved_gens = int(s1.generations)
                 snap1_at = L.snapshot(s1, rec1, None)
+            # ---- a second, diverging copy (independence)
+            s2 = None
+            if case.get("diverge") and not isinstance(s0, type(None)):
+                tag2 = L.new_tag(); rec2 = L.REG[tag2] = rec0.fork()
+                try:
+                    s2 = copy.deepcopy(s0) if case["diverge"]["how"] == "deepcopy" else dill.loads(dill.dumps(s0))
+                    L.retag(s2, tag2)
+                    L.apply_op(s2, rec2, dict(op="SetObjective", cost=case["diverge"]["cost"]), 10 ** 6, tag2)
+                    # ... and a coordinate held fixed, so that a collapse is detected in the copy but not in the original
+                    L.apply_op(s2, rec2, dict(op="SetConstraints", cons=dict(kind="pin", i=0, c=float(s2.bestSolution[0]) if at["nsm"] else 0.5, inplace=False)), 10 ** 6, tag2)
+                except Exception:
+                    s2 = None
             # ---- continue the original
             n0 = len(case["pre"])
             t0, r0 = [], []
             for k, op in enumerate(case["post"]):
+                if s2 is not None:
+                    st = (random.getstate(), np.random.get_state())
+                    try:
+                        L.apply_op(s2, rec2, dict(op="Step", cb=False), 10 ** 6 + 1 + k, tag2)
+                    except Exception:
+                        pass
+                    random.setstate(st[0]); np.random.set_state(st[1])     # the diverging copy must not shift the original's random stream
                 res, msg = L.apply_op(s0, rec0, op, n0 + k, tag0)
                 r0.append(res); t0.append(L.snapshot(s0, rec0, msg))
+            if s2 is not None:
+                L.REG.pop(tag2, None)
             final0 = L.snapshot(s0, rec0, None)
             out = dict(pre_trace=pre_trace, pre_res=pre_res, at=at, t0=t0, r0=r0, action=a, restored=s1 is not None, saved_gens=saved_gens,
                        p0=L.pack(rec0, pre_trace + t0, pre_res + r0))
@@ -225,6 +262,9 @@ def oracle(case, out):
     a = out["action"]
     # the snapshot is the original at the boundary (a periodic dump is taken inside the last iteration)
     va, v1 = view(out["at"]), view(out["snap1_at"])
+    # _live decides whether the next Step re-decorates the objective (re-clipping / rebuilding the population under strict ranges):
+    # a snapshot that differs in it does not resume like the original
+    va["live"], v1["live"] = out["at"].get("live"), out["snap1_at"].get("live")
     ignore = ("msg", "maxiter", "maxfun") if a == "savefreq" else ("msg",)
     if {k: v for k, v in va.items() if k not in ignore} != {k: v for k, v in v1.items() if k not in ignore}:
         diff = [k for k in va if k not in ignore and va[k] != v1[k]]
